@@ -71,7 +71,8 @@ class Rewriter(ast.NodeTransformer):
         self.stack.append(node.name)
         qual = '.'.join(self.stack)
         self.generic_visit(node)
-        if self.yields and any(qual.startswith(p) for p in YIELD_PREFIXES):
+        prefixes = YIELD_PREFIXES if self.yields is True else tuple(self.yields or ())
+        if self.yields and any(qual.startswith(p) for p in prefixes):
             node.body = self._with_yields(node.body)
         cov = ast.Expr(value=ast.Call(func=ast.Name(id='__sx_cov__', ctx=ast.Load()), args=[ast.Constant(value=qual)], keywords=[]))
         # keep a docstring first
